@@ -276,7 +276,49 @@ var deferResultTemplates = []struct{ src, want string }{
 	{"a = [1, 2]\nprobe(func() {\ndefer func() { a = [7, 8] }()\nreturn a\n}())", "(l (i 1) (i 2))"},
 }
 
+// errors raised while a host function calls a script function back reach the enclosing try (or the host);
+// every invocation runs exactly its own deferred calls, also when the function is re-entered. wantErr "*" = any error.
+var errorPathTemplates = []struct {
+	src     string
+	want    []string
+	wantErr string
+}{
+	{"try {\neachcb([1, 2, 3], func(x) {\nprobe(x)\nif x == 2 {\nthrow \"boom\"\n}\nprobe(10 + x)\n})\nprobe(\"after-each\")\n} catch e {\nprobe(\"caught\")\n} finally {\nprobe(\"finally\")\n}",
+		[]string{"(i 1)", "(i 11)", "(i 2)", vals.Encode("caught"), vals.Encode("finally")}, ""},
+	{"callcb0(func() {\nthrow \"boom\"\n})\nprobe(\"after\")", []string{}, "*"},
+	{"callcb0(func() {\nprobe(1)\nnosuch()\nprobe(2)\n})\nprobe(\"after\")", []string{"(i 1)"}, "*"},
+	{"try {\ncallcb0(func() {\nx = [1][5]\n})\nprobe(\"after\")\n} catch e {\nprobe(\"caught\")\n}", []string{vals.Encode("caught")}, ""},
+	{"try {\nprobe(cbv(func(v) {\nthrow \"in-cbv\"\n}, 1))\n} catch e {\nprobe(\"caught\")\n}", []string{vals.Encode("caught")}, ""},
+	{"func run() {\neachcb([1, 2], func(x) {\nif x == 1 {\nthrow \"first\"\n}\nprobe(x)\n})\nreturn \"completed\"\n}\nprobe(run())", []string{}, "*"},
+	{"func walk(n) {\ndefer probe(100 + n)\nif n > 0 {\nwalk(n - 1)\n}\n}\nwalk(2)\nwalk(2)", []string{"(i 100)", "(i 101)", "(i 102)", "(i 100)", "(i 101)", "(i 102)"}, ""},
+	{"func tr(p) {\ndefer probe(\"close-\" + p)\nif len(p) < 2 {\ntr(p + \"l\")\ntr(p + \"r\")\n}\n}\ntr(\"t\")", []string{vals.Encode("close-tl"), vals.Encode("close-tr"), vals.Encode("close-t")}, ""},
+	{"func rel(n) {\ndefer probe(200 + n)\nif n == 0 {\nthrow \"bottom\"\n}\nrel(n - 1)\n}\ntry {\nrel(2)\n} catch e {\n}\ntry {\nrel(2)\n} catch e {\n}", []string{"(i 200)", "(i 201)", "(i 202)", "(i 200)", "(i 201)", "(i 202)"}, ""},
+	{"f = func(n) {\ndefer probe(n)\ndefer probe(n * 10)\nif n < 3 {\nf(n + 1)\n}\n}\nf(1)\nf(2)", []string{"(i 30)", "(i 3)", "(i 20)", "(i 2)", "(i 10)", "(i 1)", "(i 30)", "(i 3)", "(i 20)", "(i 2)"}, ""},
+}
+
 func streamErrors(o *Out, r *rand.Rand, n int, thorough bool) {
+	for _, c := range errorPathTemplates {
+		stmt, err := parser.ParseSrc(c.src)
+		if err != nil {
+			o.Fail(Failure{Oracle: "errors-template-parses", Key: "errors-template-parse", Input: c.src, Detail: err.Error()})
+			continue
+		}
+		res := runVM(stmt, -1, 3*time.Second)
+		if strings.Contains(c.src, "eachcb") || strings.Contains(c.src, "callcb0") || strings.Contains(c.src, "cbv") {
+			o.Sum.Evaluations++ // host callbacks are not part of the model: implementation-side oracle only
+		} else {
+			o.Case(fmt.Sprintf("(run %d _ %s)", modelFuel, astser.Prog(stmt)), res.line, c.src, true)
+		}
+		o.Sum.Hist["error-path-template"]++
+		gotErr := ""
+		if res.err != nil {
+			gotErr = res.err.Error()
+		}
+		if res.hung || res.panicked || strings.Join(res.trace, " ") != strings.Join(c.want, " ") || (c.wantErr == "") != (gotErr == "") {
+			o.Fail(Failure{Oracle: "error-paths", Key: "error-path:" + firstLine(c.src), Input: c.src,
+				Detail: fmt.Sprintf("expected trace %v and error %q; got trace %v and error %q (panicked=%v)", c.want, c.wantErr, res.trace, gotErr, res.panicked)})
+		}
+	}
 	for _, t := range deferResultTemplates {
 		stmt, err := parser.ParseSrc(t.src)
 		if err != nil {
